@@ -471,7 +471,12 @@ def gen_case(rng):
             c["rv"] = 2.0
     elif r < 0.80:                                 # plain number on either side
         op = rng.choice(["add", "sub", "mul", "div", "mul", "div"])
-        us = gen_units(rng) if (op in ("mul", "div") or rng.random() < 0.5) else []
+        us = gen_units(rng) if (op in ("mul", "div") or rng.random() < 0.3) else []
+        if op in ("add", "sub") and rng.random() < 0.6:
+            # dimensionless units: the only ones a plain number can be added to
+            nodim = unit_pool()[1][json.dumps([[0, 1]] * 8)]
+            us = [((rng.choice(pr) if pr and rng.random() < 0.5 else "", s), (rng.choice([1, 1, 2, -1]), 1))
+                  for s, pr in [rng.choice(nodim)]]
         x = gen_value(rng, nonzero=True, arrays=rng.random() < 0.5)
         v = gen_value(rng, nonzero=True)
         if isinstance(x, list) and isinstance(v, list) and len(x) != len(v):
@@ -527,6 +532,8 @@ CORPUS = [
     {"op": "add", "lv": 3.0, "lu": None, "rv": 2.0, "ru": [], "plain": True},
     {"op": "div", "lv": 3.0, "lu": None, "rv": 2.0, "ru": U(("", "m", 1, 1)), "plain": True},
     {"op": "sub", "lv": 3.0, "lu": None, "rv": 2.0, "ru": [], "plain": True},
+    {"op": "add", "lv": 3.0, "lu": None, "rv": 2.0, "ru": U(("", "%", 1, 1)), "plain": True},
+    {"op": "sub", "lv": 2.0, "lu": U(("", "ppth", 1, 1)), "rv": 3.0, "ru": None, "plain": True},
     {"op": "neg", "lv": [1.0, -2.0], "lu": U(("", "m", 1, 1)), "le": 0.1},
 ]
 
